@@ -58,7 +58,7 @@ def worker_binary(d):
     """history on real BinaryNode objects with this process's setting of the switch"""
     from props import C11 as B
     parts = []
-    w = B.World(d["n"])
+    w = B.World(d["n"], inter=d.get("inter"))
     try:
         with B._Watchdog():
             for op in d["ops"]:
